@@ -333,6 +333,11 @@ func hugeDirSteps(n int) []Step {
 		steps = append(steps, Write(p, v1(p)))
 	}
 	n255, n250 := strings.Repeat("n", 255), "huge/"+strings.Repeat("m", 250)
+	deep := "deep"
+	for i := 1; i <= 40; i++ {
+		deep += fmt.Sprintf("/l%d", i)
+	}
+	steps = append(steps, Write(deep+"/leaf", "forty levels down\n"), Write(deep+"/leaf2", "second leaf\n"), Run("add", "deep"))
 	steps = append(steps, Write(n255, "name of 255 bytes\n"), Write(n250, "name of 250 bytes\n"),
 		Write("v1/data/x", "same\n"), Write("v1/data/y", "same too\n"), Write("v2/data/x", "same\n"), Write("v2/data/y", "same too\n"),
 		Run("add", "huge", n255, "v1", "v2"), Run("commit", "-m", "huge directory"),
